@@ -633,6 +633,162 @@ def run_lzma(chk, drv, ncases):
     return len(dist)
 
 
+# ------------------------------------------------------------------ stream E: bzip2 decode window
+def run_bzip(chk, drv, ncases):
+    """bz2 files (valid, CRC-corrupted so that the decoder fails only at the end, bit-flipped, truncated) driven
+    through _GD_Bzip2Seek/_GD_Bzip2Read/_GD_Bzip2Size of the current src/bzip.c with a 64-byte window (hook H1).
+    harness/C05/bzhist.c logs every BZ2_bzRead answer; these answers are the oracle of the extracted model
+    (bz_script_orc), so the window state after EVERY call must equal the model's, for failing decoders too."""
+    CAP = 64
+    impl = vlib.build_impl("asanmem", "-DGD_VERIF_BZIP_BUFFER_SIZE=%d" % CAP)
+    exe = vlib.build_harness(impl, os.path.join(vlib.VERIF, "harness/C05/bzhist.c"))
+    root = vlib.scratch("verif-c05b-")
+    rng = chk.rng
+    jobs, meta = [], []
+    for ci in range(ncases):
+        size = rng.choice([1, 1, 2, 4, 8, 16])
+        nbytes = rng.choice([0, 1, CAP - 1, CAP, CAP + 1, 2 * CAP, 3 * CAP, 5 * CAP + 7, rng.randint(0, 900), rng.randint(0, 900)])
+        raw = bytes(rng.getrandbits(8) for _ in range(nbytes))
+        comp = bytearray(bz2.compress(raw, rng.choice([1, 9])))
+        mode = rng.choice(["valid"] * 6 + ["crc", "crc", "flip", "trunc"])
+        if mode == "crc" and len(comp) > 14 and nbytes > 0:
+            comp[10 + rng.randint(0, 3)] ^= 1 << rng.randint(0, 7)
+        elif mode == "flip" and len(comp) > 20:
+            comp[rng.randint(14, len(comp) - 1)] ^= 1 << rng.randint(0, 7)
+        elif mode == "trunc" and len(comp) > 4:
+            del comp[rng.randint(1, len(comp) - 1):]
+        else:
+            mode = "valid"
+        d = os.path.join(root, "b%d" % ci)
+        os.makedirs(d)
+        open(d + "/format", "w").write("/ENCODING bzip2\nx RAW UINT8 1\n")
+        open(d + "/x.bz2", "wb").write(bytes(comp))
+        nsamp = nbytes // size
+        ops, pos = [], 0
+        for _ in range(rng.randint(2, 10)):
+            k = rng.random()
+            if k < 0.35:
+                n = rng.choice([0, 1, 2, 5, CAP // size, CAP // size + 1, rng.randint(0, 2 * CAP), nsamp + 3])
+                ops.append("R%d" % n); pos = min(nsamp, pos + n)
+            elif k < 0.5:
+                t = max(0, pos - rng.randint(0, CAP // size + 2))              # inside / just before the window
+            elif k < 0.65:
+                t = rng.randint(0, nsamp + 4)                                  # anywhere, also past the end
+            elif k < 0.8:
+                t = max(0, pos - rng.randint(CAP // size, 4 * CAP))            # far back: restart
+            elif k < 0.9:
+                t = pos + rng.randint(0, 3 * CAP)                              # forward
+            else:
+                ops.append("Z"); continue
+            if k >= 0.35:
+                ops.append("S%d" % t); pos = min(t, nsamp)
+        jobs.append((d, size, " ".join(ops)))
+        meta.append((size, raw, bytes(comp), mode, ops))
+
+    def one(job):
+        return vlib.sh([exe, job[0], "x.bz2", str(job[1])], inp=(job[2] + "\n").encode(), timeout=120, env=asan_env())
+    with cf.ThreadPoolExecutor(vlib.NPROC) as ex:
+        res = list(ex.map(one, jobs))
+
+    # parse the harness logs, build the oracle scripts, ask the model
+    parsed, mlines = [], []
+    for (size, raw, comp, mode, ops), (rci, out) in zip(meta, res):
+        script, sdec, evs, bad = {}, {}, [], None
+        for l in out.splitlines():
+            w = l.split(" ")
+            if w[0] in ("O", "o") and len(w) >= 4:
+                dpos, n, err = int(w[1]), int(w[2]), int(w[3])
+                r = "E" if err not in (0, 4) else ("1" if err == 4 else "0")
+                if dpos in script and script[dpos] != (n, r):
+                    bad = "BZ2_bzRead answered differently at the same decoder position %d: %s vs %s" % (dpos, script[dpos], (n, r))
+                script[dpos] = (n, r)
+                if r != "E":
+                    sdec[dpos] = bytes.fromhex(w[4]) if len(w) > 4 and w[4] else b""
+            elif w[0] == "=":
+                evs.append(w[1:])
+        parsed.append((script, sdec, evs, bad))
+        mlines.append("B %d %s %s" % (size, ",".join("%d:%d:%s" % (dp, n, r) for dp, (n, r) in sorted(script.items())) or "-", " ".join(ops)))
+    rc, mo = vlib.sh([drv], inp=("\n".join(mlines) + "\n").encode(), timeout=900)
+    mo = mo.split("\n")
+
+    dist, nerr, modes, pending_model = set(), 0, {}, []
+    for ci, ((size, raw, comp, mode, ops), (rci, out), (script, sdec, evs, bad), ml) in enumerate(zip(meta, res, parsed, mo)):
+        modes[mode] = modes.get(mode, 0) + 1
+        case = {"stream": "bzip2-window", "sample_size": size, "window_bytes": CAP, "file_kind": mode, "ops": ops,
+                "bz2_file_hex": comp[:4000].hex(), "decoded_len": len(raw)}
+        rep = san_report(out)
+        if rep or rci != 0 or "END" not in out:
+            hang = rci == 124 or rci == -9
+            chk.violation("bzip2-window/" + ("hang" if hang else "memory-safety"),
+                          "seek/read/size over a bz2 file through one handle misbehave (%s): " % mode + (rep or out[-300:])[:500],
+                          dict(case, kind="impl-vs-spec", report=(rep or out)[-1500:]))
+            continue
+        if "OPENFAIL" in out:
+            continue
+        # the assumed contract of BZ2_bzRead (what the theorems assume of the decoder)
+        L = len(raw)
+        for dp, (n, r) in script.items():
+            okc = 0 <= n <= CAP and (r != "0" or n == CAP)
+            if mode == "valid" and r != "E":
+                okc = okc and dp + n <= L and (r != "1" or dp + n == L)
+            if not okc or bad:
+                chk.violation("bzip2-window/decoder-contract", "libbz2 answered outside the contract the bzip2 window theorems assume: " +
+                              (bad or "at %d: n=%d status=%s (stream length %d)" % (dp, n, r, L)),
+                              dict(case, kind="trusted-base", theorem="bzip2_read_returns_contiguous_stream_bytes (hypothesis ok_bzresp)"), found=False)
+                break
+        mops = [x for x in ml.split("|") if x]
+        if len(mops) != len(ops) or len(evs) != len(ops):
+            chk.violation("bzip2-window/model", "correspondence broken: %d ops, %d implementation events, %d model events" % (len(ops), len(evs), len(mops)),
+                          dict(case, kind="model-vs-impl", correspondence="C05 bz_seek/bz_read/bz_size vs src/bzip.c", model=ml[:500], impl=out[-800:]), found=False)
+            continue
+        cursor = 0
+        broken = None      # first model/implementation disagreement; the scan goes on looking for a concrete failure
+        concrete = False
+        for oi, (op, ev, mv) in enumerate(zip(ops, evs, mops)):
+            chk.cov["evaluations"] += 1
+            dist.add((comp[:80], size, tuple(ops[:oi + 1])))
+            m = mv.split(" ")
+            if op == "Z":
+                if m[2] == "E":
+                    nerr += 1
+                if ev[1] != m[1] and broken is None:
+                    broken = ("correspondence broken: _GD_Bzip2Size returns %s, model %s" % (ev[1], m[1]),
+                              dict(case, kind="model-vs-impl", correspondence="C05 bz_size vs _GD_Bzip2Size", op=oi))
+                continue
+            ret, base, pos, end, send, fpos = [int(x) for x in ev[1:7]]
+            inv_ok = 0 <= pos <= end <= CAP and base >= 0
+            data_ok = True
+            if op[0] == "R" and ret > 0:
+                got = bytes.fromhex(ev[7]) if len(ev) > 7 else b""
+                want = bytearray()
+                for dp in sorted(sdec):
+                    if dp < cursor + ret * size and dp + len(sdec[dp]) > cursor:
+                        want += sdec[dp][max(0, cursor - dp):cursor + ret * size - dp]
+                data_ok = got == bytes(want)
+            if not inv_ok or not data_ok or (op[0] == "R" and ret > int(op[1:])):
+                chk.violation("bzip2-window/window-invariant",
+                              "op %d (%s) on a %s bz2 file leaves base=%d pos=%d end=%d (window %d) ret=%d%s" %
+                              (oi, op, mode, base, pos, end, CAP, ret, "" if data_ok else "; the bytes returned are not the decoded bytes at the cursor"),
+                              dict(case, kind="impl-vs-spec", op=oi, impl=ev, model=mv))
+                concrete = True
+                break
+            if m[7] == "E":
+                nerr += 1
+            if broken is None and [str(x) for x in (ret, base, pos, end, send, fpos)] != m[1:7]:
+                broken = ("correspondence broken: after op %d (%s) the implementation has ret,base,pos,end,stream_end,file->pos = %s, the model %s" %
+                          (oi, op, ev[1:7], m[1:8]),
+                          dict(case, kind="model-vs-impl", correspondence="C05 bz_seek/bz_read vs src/bzip.c", op=oi, impl=ev[:7], model=mv))
+            cursor = base + pos
+        if broken and not concrete:
+            pending_model.append(broken)
+    # a broken correspondence is reported with the concrete failures found by the scan; without any, as such
+    nconc = sum(1 for v in chk.violations if v[0].startswith("bzip2-window/") and v[3])
+    for desc, rep in pending_model[:(0 if nconc else 3)]:
+        chk.violation("bzip2-window/model", desc, rep, found=False)
+    chk.sample({"stream": "bzip2-window", "kinds": modes, "ops_with_decoder_error": nerr, "example_ops": meta[0][4]})
+    return len(dist)
+
+
 def main():
     chk = vlib.Check("C05")
     rc, tout = vlib.sh("python3 %s/translate/tr_limits.py" % vlib.VERIF)
@@ -649,7 +805,7 @@ def main():
                         "allocation failure paths are not exercised"]
     try:
         asan = vlib.build_impl("asanmem")
-        ok, log = vlib.coq_make(["Gen/Limits.vo", "C05/SieRead.vo", "C05/Recurse.vo", "C05/LzmaWindow.vo"])
+        ok, log = vlib.coq_make(["Gen/Limits.vo", "C05/SieRead.vo", "C05/Recurse.vo", "C05/LzmaWindow.vo", "C05/BzipWindow.vo"])
         drv = vlib.build_ocaml_driver("C05", "C05/Extract.v", "ocaml/C05/driver.ml")
     except vlib.BuildError as e:
         chk.violation("build", "build failed: " + str(e)[:1500], {"kind": "build"}, found=False)
@@ -659,11 +815,13 @@ def main():
     d2, nrec = run_recurse(chk, asan, drv, 1500 if T else 150)
     acc = run_fuzz(chk, asan, 6000 if T else 500)
     d4 = run_lzma(chk, drv, 1500 if T else 160)
-    chk.cov["distinct_nontrivial"] = d1 + d2 + d4
+    d5 = run_bzip(chk, drv, 2500 if T else 300)
+    chk.cov["distinct_nontrivial"] = d1 + d2 + d4 + d5
     chk.cov["rule"] = ("stream A: SIE record lists (%d malformed windows: non-monotonic/negative/huge indices, partial trailing record) x 4 windows, "
                        "fresh handle each, ASan build, compared with the extracted sie_get; stream B: closed field graphs (chains around the recursion "
                        "limit, cycles behind prefixes, DAGs with back edges; %d queries the model answers Recurse) compared with eval_top; "
-                       "stream D: xz fields read through one handle with 64/32/16-byte decode buffers (sequential, back inside/outside the look-back, rewind, past the end) vs the slice the lzma window theorems promise; stream C (validation only, not counted as distinct_nontrivial): grammar-generated dirfiles of every encoding with corrupted "
+                       "stream D: xz fields read through one handle with 64/32/16-byte decode buffers (sequential, back inside/outside the look-back, rewind, past the end) vs the slice the lzma window theorems promise; "
+                       "stream E: bz2 files (valid / CRC-corrupted / bit-flipped / truncated) driven through _GD_Bzip2Seek/Read/Size with a 64-byte window, every BZ2_bzRead answer logged and replayed as the model's oracle, window state compared after every call; stream C (validation only, not counted as distinct_nontrivial): grammar-generated dirfiles of every encoding with corrupted "
                        "data/LINTERP files and byte-mutated format text through every read-side call under ASan+UBSan+LSan (%d of them accepted by gd_open). "
                        "distinct_nontrivial = distinct (record list, window) + distinct (graph, query)") % (nmal, nrec, acc)
     if tprob and not chk.violations:
